@@ -12,6 +12,7 @@ import (
 
 	jose "github.com/go-jose/go-jose/v4"
 	"github.com/zitadel/oidc/v3/pkg/oidc"
+	"github.com/zitadel/oidc/v3/pkg/op"
 
 	"verif/sim/kernel"
 	"verif/sim/world"
@@ -67,6 +68,12 @@ func (cw *codeWorld) startAuth(ch *kernel.Chooser, client string) string {
 		p.method = "S256"
 	case pk == 8 || (!c.Public() && pk == 4):
 		p.method = "plain"
+	}
+	if c.AppType == op.ApplicationTypeNative && strings.HasPrefix(p.redirect, "http://localhost/") && ch.Bool(1, 2) {
+		// a native app listens on whatever loopback port it got (RFC 8252 section 7.3): the authorization endpoint
+		// accepts any port for a registered loopback URI; the code stays bound to the URI that was used
+		p.redirect = strings.Replace(p.redirect, "http://localhost/", ch.Pick("http://localhost:51001/", "http://127.0.0.1:8402/", "http://localhost:7/"), 1)
+		cw.o.Probe("native-loopback-port-variation")
 	}
 	ap := world.AuthParams{Client: client, RedirectURI: p.redirect, ResponseType: "code", Scope: strings.Join(p.scopes, " "), State: p.state, Nonce: p.nonce}
 	if p.method != "" {
@@ -166,6 +173,14 @@ func (cw *codeWorld) deviate(ch *kernel.Chooser, ic *issuedCode, ndev int) (form
 			alt := ic.ar.RedirectURI + "/x"
 			if len(c.Redirects) > 1 && ch.Bool(1, 2) {
 				alt = c.Redirects[1]
+			}
+			if u, err := url.Parse(ic.ar.RedirectURI); err == nil && u.Scheme == "http" && (u.Hostname() == "localhost" || u.Hostname() == "127.0.0.1") && ch.Bool(2, 3) {
+				// another loopback URI of the same path: fine at the authorization endpoint, not the URI of this code
+				u.Host = ch.Pick("localhost:51002", "127.0.0.1:51001", "localhost", "[::1]:51001")
+				if u.String() != ic.ar.RedirectURI {
+					alt = u.String()
+					cw.o.Probe("code-redeemed-with-another-loopback-uri")
+				}
 			}
 			form.Set("redirect_uri", alt)
 			devs = append(devs, "wrong-redirect")
